@@ -6,7 +6,7 @@ From Coq Require Extraction.
 From Coq Require Import ExtrOcamlBasic.
 From Coq Require Import ZArith NArith.
 From AJ Require Import Model.Base Model.FloatModel Model.Value Model.Utf Model.NumParse
-  Model.JsonParse Model.JsonSer Model.MsgPack Model.Stream Model.Convert Model.Compare Model.Tree Model.Chain Model.Pool Model.Collection Model.MsgPackTypes Model.StrBuild.
+  Model.JsonParse Model.JsonSer Model.MsgPack Model.Stream Model.Convert Model.Compare Model.Tree Model.Chain Model.Pool Model.Collection Model.MsgPackTypes Model.StrBuild Model.CopyBudget.
 Extraction Language OCaml.
 Extraction "model.ml"
   N.div_eucl Z.div_eucl Z.of_N Z.to_N N.of_nat N.to_nat Z.opp N.mul N.add Z.mul Z.add Z.sub
@@ -21,5 +21,6 @@ Extraction "model.ml"
   ps0 pstep alloc_from_last max_pools count sp_add sp_deref sp_refs
   a_init astep elements
   sb_init sb_step n_content bf_init bf_step
+  copy_budget slots
   copy_array_1d copy_array_2d copy_string
   mp_binary_raw mp_extension_raw mp_binary_of_raw mp_extension_of_raw.
